@@ -129,3 +129,59 @@ Section ErrSteps.
       + discriminate He.
   Qed.
 End ErrSteps.
+
+(* ---------- a step taken on a value that is not JSON (C20) ---------- *)
+(* the value a path of name and index steps reaches *)
+Fixpoint walk (v : value) (steps : list kstep) : option value :=
+  match steps with
+  | [] => Some v
+  | s :: r =>
+      match s with
+      | SIdx ds => match v with VArr xs => match idx_pick xs (step_idx ds) with Some x => walk x r | None => None end | _ => None end
+      | _ => match v with VObj m => match lookup m (step_key s) with Some x => walk x r | None => None end | _ => None end
+      end
+  end.
+
+Lemma first_fail2_app pre : forall doc v rest, walk doc pre = Some v -> first_fail2 doc (pre ++ rest) = first_fail2 v rest.
+Proof.
+  induction pre as [|s r IH]; intros doc v rest H.
+  - cbn [walk] in H. inversion H; subst. reflexivity.
+  - cbn [app]. destruct s as [q key|key|ds|w|sa sb sc|u us]; cbn [walk first_fail2] in *;
+      try (destruct doc as [|bb|x|s0 x|s0|xs|m|t i s0]; try discriminate H;
+           match type of H with context [lookup ?m ?k] => destruct (lookup m k) as [y|]; [apply IH; exact H|discriminate H] end).
+    destruct doc as [|bb|x|s0 x|s0|xs|m|t i s0]; try discriminate H.
+    destruct (idx_pick xs (step_idx ds)) as [y|]; [apply IH; exact H|discriminate H].
+Qed.
+
+Definition expected_container (x : kstep) : string := match x with SIdx _ => "array" | _ => "object" end.
+Lemma first_fail2_opaque x post ty i s : is_loc_step x = true ->
+  first_fail2 (VOpaque ty i s) (x :: post) = Some (x, Some (expected_container x, ty)).
+Proof. destruct x; intros H; try discriminate H; reflexivity. Qed.
+
+Section ErrForeign.
+  Variable cfg : config.
+  Variable parse_float : string -> option num.
+  Variable regex_ok : string -> bool.
+  Variable ffun : string -> value -> option value.
+  Variable afun : string -> list value -> option value.
+  Variable regex_match : string -> string -> bool.
+  Hypothesis ffun_small : forall f v w, small v -> ffun f v = Some w -> small w.
+  Hypothesis afun_small : forall f l w, Forall small l -> afun f l = Some w -> small w.
+
+  (* a path of name and index steps that reaches a value which is not JSON and has a further step to take there fails with
+     "type unmatched" naming that step: expected object (array for an index), found the Go type of the value — never a panic *)
+  Theorem foreign_value_step_error pre x post doc ty i s st :
+    forallb step_ok (pre ++ x :: post) = true -> forallb is_loc_step (pre ++ x :: post) = true -> small doc -> ok st ->
+    walk doc pre = Some (VOpaque ty i s) ->
+    exists t b, parse_with cfg parse_float regex_ok jsonpath_grammar (chain_path (map RPlain (pre ++ x :: post))) = ParseOk t /\
+                fst (eval_run ffun afun regex_match t doc st) = OErr (EType b (expected_container x) ty) /\ text b = step_text x.
+  Proof.
+    intros Hs Hn Hd Hok Hw.
+    assert (Hx : is_loc_step x = true).
+    { rewrite forallb_app in Hn. apply andb_true_iff in Hn. destruct Hn as [_ Hn]. cbn [forallb] in Hn. apply andb_true_iff in Hn. exact (proj1 Hn). }
+    destruct (pre ++ x :: post) as [|s0 r0] eqn:El; [destruct pre; discriminate El|].
+    destruct (loc_path_error cfg parse_float regex_ok ffun afun regex_match ffun_small afun_small s0 r0 doc st Hs Hn Hd Hok) as (t & Hp & H).
+    rewrite <- El in H. rewrite (first_fail2_app pre doc _ (x :: post) Hw), (first_fail2_opaque x post ty i s Hx) in H.
+    destruct H as (b & He & Hb). exists t, b. split; [exact Hp|]. split; [exact He|exact Hb].
+  Qed.
+End ErrForeign.
